@@ -20,8 +20,9 @@ The body is read as a straight-line program over hash accumulators:
     return ByteVec(X1 + X2 + ...)
   ITEM  = int.to_bytes(VAL, length=32)  |  <storage>.digest()
   VAL   = ex.balance.get_id() | int_of(<addr>) | id(<code object>) | <term>.get_id() | <int variable>
+          | BV(<block field>).as_z3().get_id()
   ITER  = ex.code.items() | ex.storage.items() | enumerate(ex.path.conditions) | ex.path.conditions
-          | sorted(ex.path.sliced)
+          | sorted(ex.path.sliced) | (<blk>.basefee, <blk>.number, ...) with <blk> = ex.block or an alias of it
   COND  = include_path | <int> in ex.path.sliced | ex.path.sliced is None | isinstance(<key>, int)
 Anything else raises TranslateError.  The intermediate representation is also interpreted in
 Python (with the real xxhash) by `selfcheck`, against the imported function on fabricated
@@ -73,7 +74,11 @@ ITERS = {
     "sorted_sliced": ("(zsorted (sliced_set ex))", ["int"]),
     "mapping_items": ("self", ["key", "term"]),
     "key_tuple": (None, ["int"]),
+    "block_fields": (None, ["blockfield"]),
 }
+
+BLOCK_FIELDS = {"basefee": "BBasefee", "chainid": "BChainid", "coinbase": "BCoinbase", "difficulty": "BDifficulty",
+                "gaslimit": "BGaslimit", "number": "BNumber", "timestamp": "BTimestamp"}
 
 
 class HashProgram:
@@ -95,6 +100,12 @@ class HashProgram:
             if isinstance(f, ast.Attribute) and f.attr == "get_id" and not n.args:
                 if _is_attr_chain(f.value, ["ex", "balance"]):
                     return ("balance",)
+                # BV(<block field>).as_z3().get_id(): the id of the term held in the field (ints / BV / z3 alike)
+                g = f.value
+                if isinstance(g, ast.Call) and not g.args and not g.keywords and isinstance(g.func, ast.Attribute) and g.func.attr == "as_z3" \
+                        and isinstance(g.func.value, ast.Call) and isinstance(g.func.value.func, ast.Name) and g.func.value.func.id == "BV" \
+                        and len(g.func.value.args) == 1 and not g.func.value.keywords:
+                    return ("var", self.var(g.func.value.args[0], "blockfield"))
                 v = self.var(f.value, "term")
                 return ("var", v)
             if isinstance(f, ast.Name) and f.id == "int_of" and len(n.args) == 1:
@@ -157,6 +168,15 @@ class HashProgram:
                 return "sorted_sliced", None
         if _is_attr_chain(n, ["ex", "path", "conditions"]):
             return "conds", None
+        if isinstance(n, (ast.Tuple, ast.List)) and n.elts:
+            flds = []
+            for e in n.elts:
+                if isinstance(e, ast.Attribute) and e.attr in BLOCK_FIELDS and (
+                        _is_attr_chain(e.value, ["ex", "block"]) or (isinstance(e.value, ast.Name) and self.env.get(e.value.id) == ("alias", "block"))):
+                    flds.append(e.attr)
+                else:
+                    _fail(e, "element of a tuple of block fields")
+            return "block_fields", flds
         if isinstance(n, ast.Name):
             e = self.env.get(n.id)
             if e and e[0] == "var" and e[1] == "key" and self.narrowed.get(e[2]) == "tuple":
@@ -201,6 +221,11 @@ class HashProgram:
                     _fail(st, "a nested block feeds a different accumulator")
                 op = ("item", self.item(st.value.args[0]))
                 (e[1] if toplevel else ops).append(op)
+                continue
+            if isinstance(st, ast.Assign) and len(st.targets) == 1 and isinstance(st.targets[0], ast.Name) and _is_attr_chain(st.value, ["ex", "block"]):
+                if st.targets[0].id in self.env:
+                    _fail(st, "alias rebinds a name")
+                self.env[st.targets[0].id] = ("alias", "block")
                 continue
             if isinstance(st, ast.For) and not st.orelse:
                 kind, src = self.iterable(st.iter)
@@ -331,7 +356,10 @@ def g_ops(ops, narrowed=None):
                 parts.append(f"[Dg (digest {it[1]})]")
         elif k == "for":
             _, kind, src, irs, body = op
-            lst = ITERS[kind][0] if kind != "key_tuple" else f"(key_tuple {src})"
+            if kind == "block_fields":
+                lst = "(block_ids ex [" + "; ".join(BLOCK_FIELDS[x] for x in src) + "])"
+            else:
+                lst = ITERS[kind][0] if kind != "key_tuple" else f"(key_tuple {src})"
             if len(irs) == 1:
                 parts.append(f"(flat_map (fun {irs[0]} => {g_ops(body, narrowed)}) {lst})")
             else:
@@ -396,7 +424,8 @@ def py_ops(ops, st, env, hasher, digest):
             seq = {"code_items": lambda: st["code"], "storage_items": lambda: st["storage"],
                    "enum_conds": lambda: list(enumerate(st["conds"])), "conds": lambda: [(c,) for c in st["conds"]],
                    "sorted_sliced": lambda: [(i,) for i in sorted(st["sliced"])],
-                   "mapping_items": lambda: st["mapping"], "key_tuple": lambda: [(x,) for x in env[src]]}[kind]()
+                   "mapping_items": lambda: st["mapping"], "key_tuple": lambda: [(x,) for x in env[src]],
+                   "block_fields": lambda: [(st["block"][x],) for x in src]}[kind]()
             for tup in seq:
                 e2 = dict(env)
                 for ir, x in zip(irs, tup):
@@ -489,7 +518,7 @@ def _fake_exec(st, digest_fn):
     code = {a: c for a, c in st["code_objs"]}
     storage = {a: Stor(m) for a, m in st["storage"]}
     conds = {Term(c): True for c in st["conds"]}
-    return NS(balance=Term(st["balance"]), code=code, storage=storage,
+    return NS(balance=Term(st["balance"]), code=code, storage=storage, block=NS(**st["block_terms"]),
               path=NS(conditions=conds, sliced=None if st["sliced"] is None else set(st["sliced"])))
 
 
@@ -511,6 +540,7 @@ def selfcheck(info):
     if len(rets) != 1 or ast.unparse(rets[0].value) != "snapshot_state(ex, include_path=True).unwrap()":
         bad.append("get_state_id is no longer `snapshot_state(ex, include_path=True).unwrap()`")
     r = random.Random(15)
+    keepalive = []
 
     def digest_fn(m):
         return xxhash.xxh3_128(repr(m).encode()).digest()
@@ -524,6 +554,17 @@ def selfcheck(info):
               "conds": r.sample(range(1000, 1100), nconds),
               "sliced": None if trial % 7 == 3 else r.sample(range(nconds + 2), r.randint(0, nconds))}
         st["code"] = [(a, id(o)) for a, o in st["code_objs"]]
+        # block fields: ints, z3 values and z3 symbols alike (cheatcodes store what they are given)
+        import z3
+
+        terms = {}
+        for fld in BLOCK_FIELDS:
+            k = r.randrange(3)
+            terms[fld] = r.randrange(1, 50) if k == 0 else z3.BitVecVal(r.randrange(1, 50), 256) if k == 1 else z3.BitVec(f"t_stateid_{fld}_{r.randrange(3)}", 256)
+        keepalive.append(terms)
+        st["block_terms"] = terms
+        st["block"] = {fld: (z3.BitVecVal(t, 256) if isinstance(t, int) else t).get_id() for fld, t in terms.items()}
+        keepalive.append([z3.BitVecVal(t, 256) for t in terms.values() if isinstance(t, int)])
         ex = _fake_exec(st, digest_fn)
         for inc in (True, False):
             try:
